@@ -160,8 +160,8 @@ func TestWriteFault(t *testing.T) {
 			}
 			// the same artifact into a REAL file on a disk that fills up after k bytes (the
 			// kernel enforces the quota): for serializers that treat *os.File specially
-			if in.run != nil && c.Chance("realFile", 1, 3) {
-				nq := 4
+			if in.run != nil && c.Chance("realFile", 1, 8) {
+				nq := 3
 				for i := 0; i < nq; i++ {
 					k := c.Int("realFile.k", 0, len(full))
 					if i == 0 {
